@@ -141,6 +141,12 @@ OPTSETS_T = OPTSETS_Q + [('-size', '-storage'), ('-length', '-partition'), ('-si
                          ('-partition', '-no-simplification'), ('-size', '-push0')]
 
 
+# MSIZE observes every earlier memory access, also a read whose value is dropped (findings F35, F52)
+MSIZE_BLOCKS = ["CALLER PUSH 20 MLOAD POP MSIZE", "CALLVALUE PUSH 20 PUSH 40 KECCAK256 POP MSIZE", "MSIZE CALLER PUSH 60 MLOAD POP MSIZE",
+                "PUSH 80 MLOAD POP MSIZE", "PUSH 0 PUSH 0 MSTORE MSIZE PUSH 1 PUSH 1 ADD", "PUSH 40 MLOAD POP PUSH 1 PUSH 1 ADD MSIZE ADD",
+                "DUP1 MLOAD POP GAS POP MSIZE", "MSIZE PUSH 40 MLOAD POP PUSH 2 PUSH 3 ADD"]
+
+
 class EndToEnd(NativeCase):
     """bounded: for corpus blocks x option sets the emitted block behaves like the input on sampled machine states
     (stack words incl. 0, 1, 2^255, 2^256-1, aliasing offsets, pseudo-random initial memory/storage/environment), needs
@@ -154,7 +160,7 @@ class EndToEnd(NativeCase):
         from .c10 import EDGE_BLOCKS
         optsets = OPTSETS_Q if tier == 'quick' else OPTSETS_T
         n_states = 12 if tier == 'quick' else 48
-        blocks = list(corpus.BASE_BLOCKS) + list(EDGE_BLOCKS)
+        blocks = list(corpus.BASE_BLOCKS) + list(EDGE_BLOCKS) + list(MSIZE_BLOCKS)
         # deterministic pseudo-random blocks (arithmetic / stack / memory / storage mixed); run under the first option sets only
         fuzz = corpus.random_blocks(60 if tier == 'quick' else 1200, seed=17) + corpus.random_blocks(40 if tier == 'quick' else 800, seed=18, profile='memory')
         shapes = corpus.rule_shape_blocks(1 if tier == 'quick' else 2) + fuzz
